@@ -96,7 +96,7 @@ static int stress(unsigned seed, int nthreads, int iters, const std::string &mix
   if (useKernel) sk = dev.buildKernelFromString(kernelSrc, "addOne");
   const long liveMem0 = verif::live(verif::kMemory), liveBuf0 = verif::live(verif::kBuffer);
   const long alloc0 = (long) dev.memoryAllocated();
-  std::atomic<int> go(0);
+  std::atomic<int> go(0), bad(0);
   std::vector<std::thread> th;
   for (int t = 0; t < nthreads; ++t) {
     th.emplace_back([&, t]() {
@@ -112,6 +112,12 @@ static int stress(unsigned seed, int nthreads, int iters, const std::string &mix
         } else if (op == 'a') {          // allocate and free
           occa::memory m = dev.malloc<char>(1 + rng() % 256);
           occa::memory s = m.slice(0, 1);
+        } else if (op == 'f') {          // explicit free() while another handle is still alive
+          occa::memory m = dev.malloc<char>(1 + rng() % 64);
+          occa::memory m2 = m;
+          occa::memory m3 = m2;
+          m.free();
+          if (m2.isInitialized() || m3.isInitialized()) bad.fetch_add(1);
         } else if (op == 'k' && useKernel) {   // build (cached) and run
           occa::kernel kk = dev.buildKernelFromString(kernelSrc, "addOne");
           occa::memory m = dev.malloc<int>(16);
